@@ -25,6 +25,7 @@ type scheduler struct {
 	switches int
 	pending  interface{} // an engine unwind raised on a child thread, re-raised on thread 0
 	finished bool
+	race     *raceState
 }
 
 type thread struct {
@@ -83,6 +84,7 @@ func (p *Path) spawn(fr *frame, instr *ssa.Go, fn Value, args []Value) {
 	}
 	t := &thread{id: len(s.threads), wake: make(chan struct{})}
 	s.threads = append(s.threads, t)
+	p.raceSpawn(t.id)
 	pos := instr.Pos()
 	go func() {
 		<-t.wake
@@ -319,6 +321,7 @@ func (p *Path) chanSend(cv Value, v Value) {
 	if ch.Closed {
 		p.targetPanicStr("send on closed channel")
 	}
+	p.raceChanRelease(ch)
 	if len(ch.Buf) < ch.Cap {
 		ch.Buf = append(ch.Buf, copyVal(v))
 		return
@@ -357,12 +360,14 @@ func (p *Path) chanRecv(cv Value, commaOk bool, instr *ssa.UnOp) Value {
 		v := ch.Buf[0]
 		ch.Buf = ch.Buf[1:]
 		ch.Recvd++
+		p.raceChanAcquire(ch)
 		if commaOk {
 			return TupleV{v, p.ts.Bool(true)}
 		}
 		return v
 	}
 	if ch.Closed {
+		p.raceChanAcquire(ch)
 		z := p.zero(ch.ET)
 		if commaOk {
 			return TupleV{z, p.ts.Bool(false)}
@@ -381,6 +386,7 @@ func (p *Path) chanClose(cv Value) {
 	if ch.Closed {
 		p.targetPanicStr("close of closed channel")
 	}
+	p.raceChanRelease(ch)
 	ch.Closed = true
 }
 
@@ -433,9 +439,11 @@ func (p *Path) doSelect(fr *frame, instr *ssa.Select) Value {
 				v := ch.Buf[0]
 				ch.Buf = ch.Buf[1:]
 				ch.Recvd++
+				p.raceChanAcquire(ch)
 				return mk(i, true, v)
 			}
 			if ch.Closed {
+				p.raceChanAcquire(ch)
 				return mk(i, false, nil)
 			}
 		} else {
@@ -443,6 +451,7 @@ func (p *Path) doSelect(fr *frame, instr *ssa.Select) Value {
 				p.targetPanicStr("send on closed channel")
 			}
 			if len(ch.Buf) < ch.Cap {
+				p.raceChanRelease(ch)
 				ch.Buf = append(ch.Buf, copyVal(fr.get(st.Send)))
 				return mk(i, false, nil)
 			}
